@@ -73,7 +73,7 @@ def run_probe(lifted, scratch):
     exp = lifted.get("expect", {})
     dis = False
     if "panic" in exp:
-        dis = ("panicked" in p.stderr) != (not exp["panic"]) if False else (("panicked" in p.stderr) and not exp["panic"])
+        dis = ("panicked" in p.stderr) and not exp["panic"]
     if "stdout_contains" in exp:
         dis = dis or (exp["stdout_contains"] not in p.stdout)
     if "stdout_lacks" in exp:
